@@ -161,14 +161,25 @@ pub fn run(case: &str) -> String {
     for h in hs { match h.join() { Ok(Ok(())) => {}, Ok(Err(e)) => bad.push(e), Err(_) => bad.push("client panic".into()) } }
     sig_stop.store(true, Ordering::SeqCst);
     if let Some(t) = sig_thread { let _ = t.join(); }
-    // let the server finish closing what the clients closed
-    std::thread::sleep(Duration::from_millis(40));
+    // let the server finish closing what the clients closed: wait until the log shows a stream drop for every accept
+    // (at most 1.5 s - a connection that is never closed is a finding, not something to wait for), then a little longer
+    let mut log: Vec<Event> = Vec::new();
+    let t_wait = Instant::now();
+    loop {
+        log.extend(verif::take_log());
+        let acc_n = log.iter().filter(|e| matches!(e, Event::EpAccept(_))).count();
+        let drop_n = log.iter().filter(|e| matches!(e, Event::EpStreamDrop(_))).count();
+        let closed_n = log.iter().filter(|e| matches!(e, Event::EpClosedStore(_))).count() + log.iter().filter(|e| matches!(e, Event::EpAddFailed(_))).count();
+        if (acc_n >= nconn + addfail && drop_n >= acc_n && closed_n >= acc_n) || t_wait.elapsed() > Duration::from_millis(1500) { break; }
+        std::thread::sleep(Duration::from_millis(2));
+    }
+    std::thread::sleep(Duration::from_millis(10));
     stop.store(true, Ordering::SeqCst);
     let _ = connect();
     let t0 = Instant::now();
     while !th.is_finished() && t0.elapsed() < Duration::from_secs(3) { std::thread::sleep(Duration::from_millis(2)); }
     if th.is_finished() { let _ = th.join(); } else { bad.push("serve_epoll did not return".into()); }
-    let log = verif::take_log();
+    log.extend(verif::take_log());
     // pointer -> incarnation index
     let mut cur: HashMap<u64, usize> = HashMap::new();
     let mut next = 0usize;
